@@ -182,7 +182,9 @@ func (f *Fosite) DefaultClientAuthenticationStrategy(ctx context.Context, r *htt
 			// 'jti' would be forgotten at once.
 			return nil, errorsx.WithStack(ErrInvalidClient.WithHint("Claim 'exp' from 'client_assertion' must be set but is not."))
 		}
-		if err := f.Store.SetClientAssertionJWT(ctx, jti, time.Unix(expiry, 0)); err != nil {
+		// The assertion is accepted during the whole second 'exp' (token.Claims.Valid() compares whole seconds),
+		// so its 'jti' has to be remembered until that second is over.
+		if err := f.Store.SetClientAssertionJWT(ctx, jti, time.Unix(expiry+1, 0)); err != nil {
 			return nil, err
 		}
 
